@@ -194,6 +194,13 @@ func runC08(c *Ctx, r *Rng, sc c08Scenario, idx int) {
 		return
 	}
 	retAt := time.Now()
+	if dl, ok := ctx.Deadline(); ok && xerr != nil && !retAt.Before(dl.Add(-2*time.Millisecond)) {
+		// returned at the deadline instant: the context's timer may need a moment to close Done
+		select {
+		case <-ctx.Done():
+		case <-time.After(100 * time.Millisecond):
+		}
+	}
 	parentErr := ctx.Err()
 	defer cancel()
 
